@@ -19,7 +19,7 @@ fn round_to(x: f64, digits: i32) -> f64 {
 }
 
 /// domain edges of the real-valued functions: swept exhaustively for every name, and mixed into the random draws
-const EDGES: [f64; 77] = [
+const EDGES: [f64; 81] = [
     0.0, 1.0, -1.0, 0.5, -0.5, 2.0, 10.0, 0.9999999999999999, 1.0000000000000002, -0.9999999999999999, 1e-9, -1e-9, 1e15, -1e15, 20.0, 21.0, 22.0, 23.0, 170.0, 171.0, 150.5, -149.5, -1.5, -2.5, 0.001, -0.999,
     -0.3678794411714423, -0.36, -0.3, -0.2, 3.0, 100.0, 1e6, 1e-6, 709.0, 710.0, -745.0, 1e300, 1.5707963267948966, 3.141592653589793, 6.283185307179586, 0.25, 4.0, 8.0, 27.0, 1024.0, 1e-300,
     169.0, 172.0, 18.0, 19.0, 62.0, 63.0, 64.0, 1023.0, 1024.5, -0.25, 2.5, -3.0,
@@ -27,6 +27,8 @@ const EDGES: [f64; 77] = [
     0.49999999999999994, -0.49999999999999994, 0.5000000000000001, 1.4999999999999998, 2.5000000000000004, 4503599627370495.5, 4503599627370497.0, 9007199254740991.0, 3.5, -3.5,
     // the ends of the double range (w(f64::MAX) lost 1e-5 to an overflow inside its Halley step; found by the coverage-guided stage)
     1.7976931348623157e308, -1.7976931348623157e308, 8.98846567431158e307, 1e308, 2.2250738585072014e-308, 5e-324, 1e-320, 1e-310,
+    // just above -1/e
+    -0.36787944, -0.3678794411714384, -0.36787944117143867, -0.367879441,
 ];
 const DEC_EDGES: [f64; 27] = [0.0, 1.0, -1.0, 0.5, 2.0, 10.0, 2.5, 3.5, -2.5, -3.5, 0.25, 27.0, 28.0, 26.0, 4.5, -0.5, -1.5, 20.5, -0.3, -0.36, 100.0, 0.001, 1.5, 2.4, 2.6, -2.4, -2.6];
 
@@ -223,6 +225,20 @@ impl Monitor for C10 {
                         }
                         v
                     });
+                }
+            }
+            if ev == Ev::Cpx {
+                // the modulus over the whole double range, both parts non-zero (seeded change C10-r11:
+                // abs as sqrt(re^2+im^2), which overflows and underflows long before the modulus does)
+                let mags: [f64; 11] = [1e-300, 1e-170, 1e-160, 1e-154, 1e-100, 1.0, 1e100, 1e153, 1e155, 1e200, 1e300];
+                for ma in mags {
+                    for mb in mags {
+                        for form in ["abs(@)", "abs(@*1)", "abs(-@)"] {
+                            if ctx.mine() {
+                                ctx.check(&Case::new(ev, "apply", form, Val::C(3.0 * ma, -4.0 * mb)).with_extra("abs"), &|c, st| self.judge(c, st));
+                            }
+                        }
+                    }
                 }
             }
             let edges = edge_args(ev);
